@@ -65,6 +65,36 @@ def grammars(nts=("S", "A"), ts=("a", "b"), r=2, k=3, kmin=1):
     return out
 
 
+@functools.lru_cache(maxsize=None)
+def grammars_long(nts=("S", "A"), ts=("a",), r=2, k=3, rlong=4):
+    """Grammars with exactly one production whose right-hand side has
+    `rlong` symbols plus 0..k-1 productions with at most `r` symbols; same
+    well-formedness conditions and ordering as grammars()."""
+    short = all_productions(nts, ts, r)
+    syms = list(nts) + list(ts)
+    longs = [(l, rhs) for l in nts
+             for rhs in itertools.product(syms, repeat=rlong)]
+    order = {p: i for i, p in enumerate(all_productions(nts, ts, rlong))}
+    out = []
+    for n in range(0, k):
+        for combo in itertools.combinations(short, n):
+            for lp in longs:
+                g = tuple(sorted(combo + (lp,), key=order.__getitem__))
+                if g[0][0] != nts[0]:
+                    continue
+                if not _productive_reachable(g, nts, ts):
+                    continue
+                out.append(g)
+    return out
+
+
+def space(sp):
+    """the list of grammars of a space description (dict)"""
+    if "rlong" in sp:
+        return grammars_long(**sp)
+    return grammars(**sp)
+
+
 def grammar_count(nts=("S", "A"), ts=("a", "b"), r=2, k=3):
     return len(grammars(nts, ts, r, k))
 
@@ -106,6 +136,10 @@ def is_acyclic(prods):
 
 LEXMAPS = {
     "M0": {"a": ("s", "a"), "b": ("s", "b")},
+    # M0 with different terminal priorities: the tokenisation is the same
+    # (the terminals never match at the same position), the scanner's
+    # priority cut-off is exercised
+    "M0p": {"a": ("s", "a", "{15}"), "b": ("s", "b")},
     "M1": {"a": ("s", "a"), "b": ("s", "aa")},
     "M2": {"a": ("s", "a"), "b": ("r", "a|b")},
     "M3": {"a": ("s", "a"), "b": ("r", "a+")},
@@ -141,11 +175,12 @@ def render_grammar(prods, nts=("S", "A", "B"), lexmap="M0", extra=""):
     if used:
         lines.append("terminals")
     for t in sorted(used):
-        kind, text = lm[t]
+        kind, text = lm[t][0], lm[t][1]
+        meta = " " + lm[t][2] if len(lm[t]) > 2 else ""
         if kind == "s":
-            lines.append(f'{t}: "{text}";')
+            lines.append(f'{t}: "{text}"{meta};')
         else:
-            lines.append(f"{t}: /{text}/;")
+            lines.append(f"{t}: /{text}/{meta};")
     return "\n".join(lines) + "\n"
 
 
